@@ -1693,13 +1693,11 @@ impl SubRule {
                                     last_pos = sp;
                                     match &set_output[i].kind {
                                         ParseElement::Ipa(seg, mods) => {
-                                            res_word.syllables[sp.syll_index].segments[sp.seg_index] = *seg;
-                                            if let Some(m) = mods {
-                                                let lc = res_word.apply_seg_mods(&self.alphas, m, sp, set_output[i].position)?;
-                                                total_len_change[sp.syll_index] += lc;
-                                                if lc > 0 {
-                                                    last_pos.seg_index += lc.unsigned_abs() as usize;
-                                                }
+                                            // as for an output outside a set: the whole (possibly long) segment is replaced
+                                            let lc = res_word.syllables[sp.syll_index].replace_segment(sp.seg_index, seg, mods, &self.alphas, set_output[i].position)?;
+                                            total_len_change[sp.syll_index] += lc;
+                                            if lc > 0 {
+                                                last_pos.seg_index += lc.unsigned_abs() as usize;
                                             }
                                             if self.input.len() == self.output.len() {
                                                 if state_index < self.input.len() -1 {
